@@ -248,3 +248,73 @@ example : checkWF exChain = none := by decide
 example : checkSupply exChain = true := by decide
 
 end Nject
+
+/-! ## C04 (run-time part) — no provider is ever handed an invalid argument -/
+namespace Nject
+
+def noBad (tr : List Ev) : Prop := ∀ id, Ev.bad id ∉ tr
+
+theorem callFn_noBad (b : Beh) (id : Nat) (memo : Bool) (args : List Val) (st : St) (h : noBad st.trace) :
+    noBad (callFn b id memo args st).2.trace := by
+  unfold callFn
+  split
+  · split
+    · exact h
+    · intro i hm
+      simp only [St.push, List.mem_append, List.mem_singleton] at hm
+      rcases hm with hm | hm
+      · exact h i hm
+      · cases hm
+  · intro i hm
+    simp only [St.push, List.mem_append, List.mem_singleton] at hm
+    rcases hm with hm | hm
+    · exact h i hm
+    · cases hm
+
+theorem push_noBad (st : St) (e : Ev) (h : noBad st.trace) (he : ∀ id, e ≠ .bad id) : noBad (st.push e).trace := by
+  intro i hm
+  simp only [St.push, List.mem_append, List.mem_singleton] at hm
+  rcases hm with hm | hm
+  · exact h i hm
+  · exact he i hm.symm
+
+theorem specTree_noBad (n : Node) (next : Env → St → Env × St)
+    (hnext : ∀ d s, noBad s.trace → noBad (next d s).2.trace) (down : Env) :
+    ∀ (w : WStep) (last : Env) (st : St), noBad st.trace → noBad (specTree n next down w last st).2.trace
+  | .ret outs, last, st, h => by
+    simp only [specTree]; exact push_noBad st _ h (by intro id he; cases he)
+  | .call args k, last, st, h => by
+    simp only [specTree]
+    apply specTree_noBad n next hnext down
+    exact push_noBad _ _ (hnext _ _ (push_noBad st _ h (by intro id he; cases he))) (by intro id he; cases he)
+
+/-- the reference semantics never produces an invalid-argument event … -/
+theorem spec_noBad (b : Beh) (errTy : Ty) (fin : Node) : ∀ (nodes : List Node) (down : Env) (st : St),
+    noBad st.trace → noBad (specNodes b errTy fin nodes down st).2.trace
+  | [], down, st, h => by
+    simp only [specNodes, specFinal]; exact callFn_noBad b _ _ _ st h
+  | n :: rest, down, st, h => by
+    cases hk : n.kind with
+    | wrapper =>
+      simp only [specNodes, hk]
+      exact specTree_noBad n _ (fun d s hs => spec_noBad b errTy fin rest d s hs) down _ _ _
+        (push_noBad st _ h (by intro id he; cases he))
+    | fallible =>
+      simp only [specNodes, hk]
+      split
+      · exact callFn_noBad b _ _ _ st h
+      · exact spec_noBad b errTy fin rest _ _ (callFn_noBad b _ _ _ st h)
+    | inj => simp only [specNodes, hk]; exact spec_noBad b errTy fin rest _ _ (callFn_noBad b _ _ _ st h)
+    | final => simp only [specNodes, hk]; exact spec_noBad b errTy fin rest _ _ (callFn_noBad b _ _ _ st h)
+
+/-- … hence, for a chain accepted by the validator, neither does the model of the generated code: every
+    argument handed to a provider comes from a slot that exists (no invalid reflect.Value), for every behaviour -/
+theorem C04_no_invalid_argument_run (b : Beh) (m : Maps) (len : Nat) (hs : SlotsOK m len) (errTy : Ty) (fin : Node)
+    (nodes : List Node) (hwf : wfRun m errTy fin nodes = true) (v : VC) (down : Env) (st : St)
+    (hl : v.length = len) (hd : Rel m.d v down) (hu : Rel m.u v Env.empty) (h : noBad st.trace) :
+    noBad (execNodes b m errTy fin nodes v st).2.trace := by
+  have := (exec_refines_spec_run b m len hs errTy fin nodes hwf v down st hl hd hu).1
+  rw [this]
+  exact spec_noBad b errTy fin nodes down st h
+
+end Nject
